@@ -737,8 +737,20 @@ fn gen_numkey(r: &mut Rng) -> String {
         _ => v.to_string(),
     }
 }
+/// directed family around the "0x" rule (exactly ONE leading "0x" is a byte literal when the rest is even-length hex)
+fn gen_0x_family(r: &mut Rng) -> String {
+    let h = { let n = r.below(4) as usize; hex::encode(r.bytes(n)) };
+    let hu = h.to_uppercase();
+    match r.below(22) {
+        0 => "0x".to_string(), 1 => "0x0x".to_string(), 2 => format!("0x0x{}", h), 3 => format!("0x0x0x{}", h),
+        4 => format!("0X{}", h), 5 => format!("0x{}1", h), 6 => "0xzz".to_string(), 7 => format!(" 0x{}", h), 8 => format!("0x{} ", h),
+        9 => format!("00x{}", h), 10 => format!("x0x{}", h), 11 => format!("0x{}", hu), 12 => format!("0x0X{}", h), 13 => format!("0x{}0x", h),
+        14 => format!("0x0x{}", hu), 15 => format!("0x0x{}1", h), 16 => "0x0x0x".to_string(), 17 => format!("0x{}0x{}", h, h),
+        18 => format!("0x0{}", h), 19 => "0".to_string(), 20 => "x".to_string(), _ => format!("0x{}", h),
+    }
+}
 fn gen_str_plain(r: &mut Rng) -> String {
-    match r.below(8) { 0 | 1 => format!("0x{}", gen_hexish(r)), 2 => gen_numkey(r), 3 => format!("0X{}", gen_hexish(r)), _ => gen_text(r) }
+    match r.below(10) { 0 | 1 => format!("0x{}", gen_hexish(r)), 2 => gen_numkey(r), 3 => format!("0X{}", gen_hexish(r)), 4 | 5 => gen_0x_family(r), _ => gen_text(r) }
 }
 /// JSON for NoConversions / BasicConversions (mostly inside the schema, with excursions)
 fn gen_j_plain(r: &mut Rng, depth: u32) -> J {
@@ -997,6 +1009,22 @@ fn gen(dir: &str) {
         let d = r.below(4) as u32;
         let j = gen_j_detailed(&mut r, d, i % 2 == 0);
         emit_json_case(&mut out, "j2m", "2", &j);
+    }
+    // directed: the "0x" family as a value, as a key, inside lists and maps, under every schema
+    for i in 0..60 * scale {
+        let a = gen_0x_family(&mut r); let b = gen_0x_family(&mut r); let c = gen_0x_family(&mut r);
+        let plain = J::Obj(vec![(a.clone(), J::Str(b.clone())), ("l".to_string(), J::Arr(vec![J::Str(c.clone()), J::Obj(vec![(c.clone(), J::Str(a.clone()))])]))]);
+        emit_json_case(&mut out, "j2m", &(i % 2).to_string(), &plain);
+        emit_json_case(&mut out, "j2m", &(i % 2).to_string(), &J::Str(a.clone()));
+        emit_json_case(&mut out, "j2p", "1", &plain);
+        let one = |k: &str, v: J| J::Obj(vec![(k.to_string(), v)]);
+        let det = one("map", J::Arr(vec![J::Obj(vec![("k".to_string(), one("string", J::Str(a.clone()))), ("v".to_string(), one("bytes", J::Str(b.clone())))]),
+                                          J::Obj(vec![("k".to_string(), one("bytes", J::Str(c.clone()))), ("v".to_string(), one("list", J::Arr(vec![one("string", J::Str(b.clone()))])))])]));
+        emit_json_case(&mut out, "j2m", "2", &det);
+        emit_json_case(&mut out, "j2p", "2", &one("list", J::Arr(vec![one("bytes", J::Str(a.clone())), one("bytes", J::Str(c.clone()))])));
+        // and as metadata text (keys and values) on the way to JSON
+        let m = M::Map(vec![(M::Text(a.clone()), M::List(vec![M::Text(b.clone())])), (M::Text(format!("k{}", i)), M::Text(c.clone()))]);
+        emit_line(&mut out, &format!("m2j {} {}", i % 3, m_tokens(&m)));
     }
     // cross-schema: documents of one schema given to another
     for _ in 0..100 * scale {
